@@ -97,6 +97,16 @@ def run_op(op, keep):
         return call_format(op[1], op[2])
     if kind == 'format_invalid':
         return call_format(op[1], 'select 1')
+    if kind == 'bsplit':                       # bytes without an encoding: UTF-8 (documented default)
+        try:
+            return 'OK ' + json.dumps(sqlparse.split(op[1].encode('utf-8')))
+        except Exception as e:   # noqa
+            return dump_exc(e)
+    if kind == 'enc_call':                     # an earlier call that names an encoding
+        try:
+            return 'OK ' + json.dumps(sqlparse.split(op[2].encode(op[1], errors='replace'), encoding=op[1]))
+        except Exception as e:   # noqa
+            return dump_exc(e)
     if kind == 'stream':
         import impl
         out = []
@@ -213,7 +223,7 @@ def lexer_state_dump():
 def model_symbol(op):
     """the operation in the syntax of the driver command `hist`"""
     k = op[0]
-    if k in ('parse', 'split', 'format', 'raise_in_gen'):
+    if k in ('parse', 'split', 'format', 'raise_in_gen', 'bsplit', 'enc_call'):
         return 'P'
     if k == 'format_invalid':
         return 'N'
